@@ -1,6 +1,6 @@
 import re,json,os,sys,shutil
 pid=sys.argv[1]; rnd=sys.argv[2] if len(sys.argv)>2 else '2'
-for k,newk in ([('1','3'),('2','4')] if rnd=='2' else [('1','5'),('2','6')]):
+for k,newk in ([('1','3'),('2','4')] if rnd=='2' else [('1',str(2*int(rnd)-1)),('2',str(2*int(rnd)))]):
     src=f'/tmp/seed{rnd}-{pid}/{k}'
     if not os.path.exists(src+'/patch.diff'): continue
     d=f'/verif/seeded/{pid}-{newk}'; os.makedirs(d,exist_ok=True)
